@@ -248,6 +248,57 @@ func ruleGlobalSettingPhase(c *Ctx) {
 		[]Ev{newOkEv(h, "ok(validateInternalRequest)", callMatcher(F(P.Method("server", "Server", "validateInternalRequest"))))}, all, "only the PD leader may drive the synchronisation")
 }
 
+// ruleOverflowCarry: a timestamp whose logical part is set back (assigned a
+// value that is not derived from its old logical part) must have had its
+// physical part advanced first — otherwise the new value is below the old one.
+// In the global allocator this is the overflow fallback after a failed
+// precheckLogical: physical += guard; logical = count.
+func ruleOverflowCarry(c *Ctx) {
+	P := c.P
+	const tso = "server/tso"
+	rule := c.Prop + "/overflow-carry"
+	pb := "github.com/pingcap/kvproto/pkg/pdpb"
+	logical := P.Field(pb, "Timestamp", "Logical")
+	physical := P.Field(pb, "Timestamp", "Physical")
+	getLogical := F(P.Method(pb, "Timestamp", "GetLogical"))
+	gen := P.Method(tso, "GlobalTSOAllocator", "GenerateTSO")
+	c.saw(fnName(gen))
+	n := 0
+	for _, st := range storesToField(gen, logical) {
+		if derivesFrom(st.Val, orPred(loadOfField(logical), resultOfCall(getLogical)), 6) {
+			continue // += count, differentiation: built on the old logical part
+		}
+		n++
+		base := baseOf(st.Addr)
+		bumped := &calledEv{name: "physical part of the same timestamp advanced", match: func(x ssa.Instruction) bool {
+			ps, ok := x.(*ssa.Store)
+			if !ok || fieldOfAddr(ps.Addr) != physical || !sameVal(baseOf(ps.Addr), base) {
+				return false
+			}
+			add, ok := strip(ps.Val).(*ssa.BinOp)
+			if !ok || add.Op != token.ADD {
+				return false
+			}
+			return derivesFrom(add.X, func(v ssa.Value) bool {
+				return isLoadOf(v, physical)
+			}, 3)
+		}, reset: func(x ssa.Instruction) bool {
+			// a new estimate (the base is re-created) or a fresh `+=` round starts over
+			if v, ok := x.(ssa.Value); ok && v == base {
+				return true
+			}
+			if ls, ok := x.(*ssa.Store); ok && ls != st && fieldOfAddr(ls.Addr) == logical && sameVal(baseOf(ls.Addr), base) {
+				return true
+			}
+			return false
+		}}
+		s := st
+		c.need(rule, gen, fmt.Sprintf("logical part set back in %s #%d", fnName(gen), n), func(x ssa.Instruction) bool { return x == ssa.Instruction(s) },
+			[]Ev{bumped}, all, "the physical part of the same timestamp was advanced since its logical part was last extended (carry), so the value does not go back")
+	}
+	c.Floor(rule, 1, "logical reset with carry (the overflow fallback of the estimate)")
+}
+
 func ruleSuffixBitsReported(c *Ctx) {
 	P := c.P
 	const tso = "server/tso"
@@ -335,6 +386,7 @@ func init() {
 		c.Group("C05/suffix", "suffix width never shrinks; a suffix is create-if-absent, existing ones are returned, new ones are max+1, only the leader assigns", func() { ruleSuffix(c) })
 		c.Group("C05/local-leader-sync", "a new local allocator leader synchronises (Initialize, WriteTSO(MaxTs), suffix width) before it is enabled", func() { ruleLocalLeaderSync(c) })
 		c.Group("C05/estimate-validated", "the global allocator validates its estimate before writing it; the local side bumps an equal maximum and never reports a failed write as synced", func() { ruleGlobalSettingPhase(c) })
+		c.Group("C05/overflow-carry", "when the estimate's logical part overflows it is reset only together with an advance of its physical part", func() { ruleOverflowCarry(c) })
 		c.Group("C05/suffix-bits-reported", "the suffix width reported with a timestamp is the width used to differentiate it, computed from the largest suffix in use", func() { ruleSuffixBitsReported(c) })
 		c.Group("C05/global-generate", "(shared with C01) a global timestamp is returned only after ok(SyncMaxTS), pre-check and a post-write leadership check", func() { ruleGlobalGenerate(c) })
 		c.Group("C05/getTS", "(shared with C01) overflow and lease guards of the local path", func() { ruleGetTS(c) })
